@@ -19,12 +19,14 @@ type Builder struct {
 	startHasLook bool
 	matched      bool   // true if we've reached a match state in current closure
 	matchMask    uint32 // slot mask accumulated to reach match state
+	matchAtEnd   bool   // the match of the current closure lies behind an end-of-text assertion
 
 	// DFA state being built
 	numStates  int                     // number of DFA states created
 	table      []Transition            // transition table
 	matchFlags []bool                  // match state flags
 	matchSlots []uint32                // slots to apply at each match state
+	endOnly    []bool                  // match states that only match at the end of the input
 	nfaToDFA   map[nfa.StateID]StateID // maps NFA state to DFA state ID
 
 	// Configuration
@@ -73,6 +75,17 @@ func Build(n *nfa.NFA) (*DFA, error) {
 	b.table = make([]Transition, 0, 64*b.stride)
 	b.matchFlags = make([]bool, 0, 64)
 
+	// State 0 is the dead state (DeadState == 0, Transition.IsDead tests for it): it
+	// gets its own all-dead row, so that no real state - in particular the start
+	// state, to which loops such as `a*` lead back - is numbered 0 and read as dead.
+	b.numStates = 1
+	b.matchFlags = append(b.matchFlags, false)
+	b.matchSlots = append(b.matchSlots, 0)
+	b.endOnly = append(b.endOnly, false)
+	for i := 0; i < b.stride; i++ {
+		b.table = append(b.table, NewTransition(DeadState, false, 0))
+	}
+
 	// Build DFA starting from anchored start state
 	startNFA := n.StartAnchored()
 	startDFA, err := b.buildState(startNFA)
@@ -101,6 +114,7 @@ func Build(n *nfa.NFA) (*DFA, error) {
 		startState:  startDFA,
 		matchStates: b.matchFlags,
 		matchSlots:  b.matchSlots,
+		endOnly:     b.endOnly,
 		stateCount:  b.numStates,
 	}
 
@@ -144,6 +158,7 @@ func (b *Builder) buildState(nfaRoot nfa.StateID) (StateID, error) {
 	} else {
 		b.matchSlots = append(b.matchSlots, 0)
 	}
+	b.endOnly = append(b.endOnly, isMatch && b.matchAtEnd)
 	b.nfaToDFA[nfaRoot] = sid
 
 	// Allocate transition row (initialize to dead state)
@@ -174,6 +189,7 @@ func (b *Builder) epsilonClosureOnePass(root nfa.StateID) ([]closureEntry, bool,
 	b.seen.Clear()
 	b.matched = false
 	b.matchMask = 0
+	b.matchAtEnd = false
 	b.stack = b.stack[:0]
 
 	// Start DFS from root
@@ -266,6 +282,7 @@ func (b *Builder) epsilonClosureOnePass(root nfa.StateID) ([]closureEntry, bool,
 				if !b.leadsOnlyToMatch(next) {
 					return nil, false, ErrNotOnePass
 				}
+				b.matchAtEnd = true
 			default:
 				return nil, false, ErrNotOnePass
 			}
